@@ -515,6 +515,8 @@ impl Iterator for CosetTables {
 pub fn coset_tables(nr_gens: usize, rels: &Vec<FreeWord>, max_rows: usize)
     -> CosetTables
 {
+    #[cfg(rust_dsymbols_verif)]
+    crate::verif_hooks::probe("fpgroups::coset_tables");
     CosetTables::new(nr_gens, rels, max_rows)
 }
 
